@@ -345,10 +345,13 @@ class NetWorld(World):
             if r.random() < self.cfg.get("reweigh", 0) * 0.3 and not self.cfg["road"] and m.get("broken") is None:
                 return {"op": "break_weight", "s": s, "e": r.randrange(64)}
             if r.random() < 0.05:
+                if r.random() < 0.08:
+                    return {"op": "inspect_edge", "s": s, "e": r.randrange(64), "how": "net_deepcopy",
+                            "fault": {"kind": "interrupt", "at": int(round(10 ** r.uniform(0, 3.0)))}}
                 return {"op": "inspect_edge", "s": s, "e": r.randrange(64),
                         "how": r.choice(["constraint", "wkt", "length", "bbox", "bbox", "net_bbox", "copy", "noise",
                                          "simplify", "tail", "all_copy", "all_copy", "net_deepcopy",
-                                         "net_deepcopy"])}
+                                         "net_deepcopy", "reverse_abs", "reverse_abs"])}
             u = r.random()
             if u < self.cfg.get("reweigh", 0) and not self.cfg["road"]:
                 return {"op": "set_weight", "s": s, "e": r.randrange(64),
@@ -434,6 +437,12 @@ class NetWorld(World):
                 # between the two phases another user takes a geometric extract of the same network
                 return {"op": "sub_network", "s": s, "a": r.randrange(64), "cut": self._gen_cut(r, m),
                         "mode": "GEOMETRIC", "to": None}
+            if u < 0.40 and m.get("fwd"):
+                # between the two phases another user deep-copies the network (and may give up half-way)
+                st = {"op": "inspect_edge", "s": s, "e": r.randrange(64), "how": "net_deepcopy"}
+                if r.random() < 0.5:
+                    st["fault"] = {"kind": "interrupt", "at": int(round(10 ** r.uniform(0, 3.0)))}
+                return st
             return {"op": "path", "s": s, "a": r.randrange(64), "b": r.randrange(64),
                     "as_node": r.choice([False, False, False, False, True, "foreign"]), "rec": r.random() < 0.2,
                     "scribble": r.random() < 0.25,
@@ -513,6 +522,14 @@ class NetWorld(World):
                 return [a * step + rr[0], b * step + rr[1]]
             a, b = "n%d_%d" % (i, j), "n%d_%d" % (i2, j2)
             pa, pb = npos(i, j), npos(i2, j2)
+            if r.random() < 0.04:
+                # a ring road: leaves the junction and comes back to it (closed with Track.loop(add=True))
+                w_ = step / 5
+                st.update({"src": a, "tgt": a, "psrc": pa, "ptgt": list(pa), "ring": True, "w": None, "o": 0, "abs": True,
+                           "mids": [[pa[0] + w_ + r.uniform(-0.5, 0.5), pa[1] + r.uniform(-0.5, 0.5)],
+                                    [pa[0] + w_ + r.uniform(-0.5, 0.5), pa[1] + w_],
+                                    [pa[0] + r.uniform(-0.5, 0.5), pa[1] + w_ + r.uniform(-0.5, 0.5)]]})
+                return st
             mids = []
             nm = r.choice([0, 0, 1, 2])
             if cfg.get("dense") and r.random() < 0.4:
@@ -640,7 +657,12 @@ class NetWorld(World):
             x0, x1, y0, y1 = m["index"]["extent"]
             if not all(x0 < p[0] < x1 and y0 < p[1] < y1 for p in pts):
                 raise Skip()        # growth outside / on the border of an existing index: outside C06/C07/C10
-        geom = Track([Obs(ENUCoords(x, y, 0)) for x, y in pts])
+        if st.get("ring") and len(pts) > 2 and pts[0] == pts[-1]:
+            geom = Track([Obs(ENUCoords(x, y, 0)) for x, y in pts[:-1]])
+            geom.loop(True)                 # the library's way of closing a line
+            self.probe("ring_road_closed_with_loop")
+        else:
+            geom = Track([Obs(ENUCoords(x, y, 0)) for x, y in pts])
         if st.get("abs"):
             computeAbsCurv(geom)
         e = Edge(st["id"], geom)
@@ -1001,6 +1023,10 @@ class NetWorld(World):
             self.fail("C07", "path.missing", "%s: %s -> %s is reachable (distance %s) but no path is returned"
                       % (where, a, b, d), "a path", None)
             return False
+        if not hasattr(rv, "path") or not hasattr(rv, "getObs"):
+            self.fail("C07", "path.nodes", "%s: the returned route carries no list of nodes" % where,
+                      "a track with its node list (.path)", type(rv).__name__)
+            return False
         path = list(rv.path)
         self.observed(path)
         coords = [[o.position.getX(), o.position.getY()] for o in rv]
@@ -1285,11 +1311,38 @@ class NetWorld(World):
                 # the box belongs to the caller, who enlarges and moves it (a map frame)
                 _, exc = self.call(lambda: (bb.addMargin(0.05), bb.translate(1.5, -2.0)))
                 self.probe("caller_edits_returned_bbox_in_place")
+        elif how == "reverse_abs":
+            # another user wants the road in the other direction, with abscissas of its own
+            from tracklib.algo.cinematics import computeAbsCurv as _cabs
+            rv_, exc = self.call(g.reverse)
+            if exc is None and rv_ is not None:
+                def redo():
+                    if rv_.hasAnalyticalFeature("abs_curv"):
+                        rv_.removeAnalyticalFeature("abs_curv")
+                    _cabs(rv_)
+                _, exc = self.call(redo)
+                if isinstance(exc, Exception):
+                    exc = None          # (whether the reversed copy can be measured is not this world's subject)
+                self.probe("reversed_copy_of_a_geometry_measured_again")
         elif how == "net_deepcopy":
             # another user takes a deep copy of the whole network and edits the copy (junctions moved,
             # geometries shifted, roads re-weighted): the copy is his
             import copy as _copy
-            cp, exc = self.call(_copy.deepcopy, net)
+            fault = st.get("fault")
+            if fault:
+                # ... and gives up half-way (Ctrl-C during the copy of a large network)
+                self.fs.plan.arm(fault)
+                self.stats["fault_armed:interrupt"] += 1
+                with simfs.Interrupter(self.fs.plan, traced=("/copy.py", "/tracklib/core/network.py")):
+                    cp, exc = self.call(_copy.deepcopy, net)
+                fired = self.fs.plan.fired
+                self.fs.plan.clear()
+                if fired:
+                    self.stats["fault_fired:interrupt"] += 1
+                    self.probe("interrupted_deep_copy_of_the_network")
+                    return "fault"
+            else:
+                cp, exc = self.call(_copy.deepcopy, net)
             if exc is None:
                 def edit():
                     done = set()
